@@ -40,7 +40,7 @@ def typeK (cr : Creation) (p : Props) (am : Option Nat) (flags : Nat) : Nat × N
     else if cr.width ≤ 0 || cr.height ≤ 0 then bitsK1 cr p am flags PIXMAN_unknown
     else bitsK1 cr p am (flags ||| FAST_PATH_BITS_IMAGE) cr.format
   | k =>
-    if !(k == .radial && (cr.radialA ≥ 0 || !hasBits flags FAST_PATH_AFFINE_TRANSFORM)) then
+    if !(k == .radial && cr.radialA ≥ 0) then
       if p.repeat_ != PIXMAN_REPEAT_NONE then
         if cr.stops.any (fun s => s.c.a != 0xffff) then amK cr p am (clearBits (flags ||| FAST_PATH_IS_OPAQUE) FAST_PATH_IS_OPAQUE) PIXMAN_unknown
         else amK cr p am (flags ||| FAST_PATH_IS_OPAQUE) PIXMAN_unknown
@@ -145,7 +145,7 @@ theorem tb_clearBits (f m i : Nat) (hi : i < 32) :
   cases f.testBit i <;> cases m.testBit i <;> rfl
 
 /-- the bits the opacity decision reads -/
-def Tracked (i : Nat) : Prop := i = 7 ∨ i = 13 ∨ i = 23 ∨ i = 24 ∨ i = 17 ∨ i = 0 ∨ i = 11
+def Tracked (i : Nat) : Prop := i = 7 ∨ i = 13 ∨ i = 23 ∨ i = 24 ∨ i = 17 ∨ i = 0
 
 /-- alpha map, convolution filter or component alpha: IS_OPAQUE and SAMPLES_OPAQUE are cleared -/
 def killed (p : Props) (am : Option Nat) : Bool :=
@@ -153,16 +153,16 @@ def killed (p : Props) (am : Option Nat) : Bool :=
 def kill (p : Props) (am : Option Nat) (i : Nat) : Bool := killed p am && (i == 13 || i == 7)
 /-- the format has no alpha field and is neither gray nor indexed -/
 def alphaLess (fmt : Nat) : Bool := fmtA fmt == 0 && fmtType fmt != PIXMAN_TYPE_GRAY && fmtType fmt != PIXMAN_TYPE_COLOR
-/-- gradients: not (radial with a ≥ 0 or without the AFFINE_TRANSFORM bit `aff`, a7be4c7), repeating, every stop alpha 0xffff -/
-def gradOpaque (cr : Creation) (p : Props) (aff : Bool) : Bool :=
-  !(cr.kind == .radial && (decide (cr.radialA ≥ 0) || !aff)) && p.repeat_ != PIXMAN_REPEAT_NONE && !(cr.stops.any (fun s => s.c.a != 0xffff))
+/-- gradients: not (radial with a ≥ 0), repeating, every stop alpha 0xffff -/
+def gradOpaque (cr : Creation) (p : Props) : Bool :=
+  !(cr.kind == .radial && decide (cr.radialA ≥ 0)) && p.repeat_ != PIXMAN_REPEAT_NONE && !(cr.stops.any (fun s => s.c.a != 0xffff))
 /-- bits set by the type-specific section -/
-def typeEff (cr : Creation) (p : Props) (aff : Bool) (i : Nat) : Bool :=
+def typeEff (cr : Creation) (p : Props) (i : Nat) : Bool :=
   match cr.kind with
   | .solid => i == 13 && cr.solidAlpha == 0xffff
   | .bits => alphaLess cr.format && (i == 7 || (i == 13 && p.repeat_ != PIXMAN_REPEAT_NONE))
-  | _ => i == 13 && gradOpaque cr p aff
-def closed (cr : Creation) (p : Props) (am : Option Nat) (aff : Bool) (i : Nat) (b : Bool) : Bool := (b || typeEff cr p aff i) && !kill p am i
+  | _ => i == 13 && gradOpaque cr p
+def closed (cr : Creation) (p : Props) (am : Option Nat) (i : Nat) (b : Bool) : Bool := (b || typeEff cr p i) && !kill p am i
 
 /-! bit table of the flag constants (regenerated constants: each fact is re-decided on every build) -/
 theorem cb_ID_TRANSFORM_7 : FAST_PATH_ID_TRANSFORM.testBit 7 = false := by decide
@@ -330,36 +330,8 @@ theorem cb_SAMPLES_COVER_CLIP_BILINEAR_0 : FAST_PATH_SAMPLES_COVER_CLIP_BILINEAR
 theorem cb_BITS_IMAGE_0 : FAST_PATH_BITS_IMAGE.testBit 0 = false := by decide
 theorem cb_SEPARABLE_CONVOLUTION_FILTER_0 : FAST_PATH_SEPARABLE_CONVOLUTION_FILTER.testBit 0 = false := by decide
 
-theorem cb_ID_TRANSFORM_11 : FAST_PATH_ID_TRANSFORM.testBit 11 = false := by decide
-theorem cb_NO_ALPHA_MAP_11 : FAST_PATH_NO_ALPHA_MAP.testBit 11 = false := by decide
-theorem cb_NO_CONVOLUTION_FILTER_11 : FAST_PATH_NO_CONVOLUTION_FILTER.testBit 11 = false := by decide
-theorem cb_NO_PAD_REPEAT_11 : FAST_PATH_NO_PAD_REPEAT.testBit 11 = false := by decide
-theorem cb_NO_REFLECT_REPEAT_11 : FAST_PATH_NO_REFLECT_REPEAT.testBit 11 = false := by decide
-theorem cb_NO_ACCESSORS_11 : FAST_PATH_NO_ACCESSORS.testBit 11 = false := by decide
-theorem cb_NARROW_FORMAT_11 : FAST_PATH_NARROW_FORMAT.testBit 11 = false := by decide
-theorem cb_COMPONENT_ALPHA_11 : FAST_PATH_COMPONENT_ALPHA.testBit 11 = false := by decide
-theorem cb_SAMPLES_OPAQUE_11 : FAST_PATH_SAMPLES_OPAQUE.testBit 11 = false := by decide
-theorem cb_UNIFIED_ALPHA_11 : FAST_PATH_UNIFIED_ALPHA.testBit 11 = false := by decide
-theorem cb_SCALE_TRANSFORM_11 : FAST_PATH_SCALE_TRANSFORM.testBit 11 = false := by decide
-theorem cb_NEAREST_FILTER_11 : FAST_PATH_NEAREST_FILTER.testBit 11 = true := by decide
-theorem cb_HAS_TRANSFORM_11 : FAST_PATH_HAS_TRANSFORM.testBit 11 = false := by decide
-theorem cb_IS_OPAQUE_11 : FAST_PATH_IS_OPAQUE.testBit 11 = false := by decide
-theorem cb_NO_NORMAL_REPEAT_11 : FAST_PATH_NO_NORMAL_REPEAT.testBit 11 = false := by decide
-theorem cb_NO_NONE_REPEAT_11 : FAST_PATH_NO_NONE_REPEAT.testBit 11 = false := by decide
-theorem cb_X_UNIT_POSITIVE_11 : FAST_PATH_X_UNIT_POSITIVE.testBit 11 = false := by decide
-theorem cb_AFFINE_TRANSFORM_11 : FAST_PATH_AFFINE_TRANSFORM.testBit 11 = false := by decide
-theorem cb_Y_UNIT_ZERO_11 : FAST_PATH_Y_UNIT_ZERO.testBit 11 = false := by decide
-theorem cb_BILINEAR_FILTER_11 : FAST_PATH_BILINEAR_FILTER.testBit 11 = false := by decide
-theorem cb_ROTATE_90_TRANSFORM_11 : FAST_PATH_ROTATE_90_TRANSFORM.testBit 11 = false := by decide
-theorem cb_ROTATE_180_TRANSFORM_11 : FAST_PATH_ROTATE_180_TRANSFORM.testBit 11 = false := by decide
-theorem cb_ROTATE_270_TRANSFORM_11 : FAST_PATH_ROTATE_270_TRANSFORM.testBit 11 = false := by decide
-theorem cb_SAMPLES_COVER_CLIP_NEAREST_11 : FAST_PATH_SAMPLES_COVER_CLIP_NEAREST.testBit 11 = false := by decide
-theorem cb_SAMPLES_COVER_CLIP_BILINEAR_11 : FAST_PATH_SAMPLES_COVER_CLIP_BILINEAR.testBit 11 = false := by decide
-theorem cb_BITS_IMAGE_11 : FAST_PATH_BITS_IMAGE.testBit 11 = false := by decide
-theorem cb_SEPARABLE_CONVOLUTION_FILTER_11 : FAST_PATH_SEPARABLE_CONVOLUTION_FILTER.testBit 11 = false := by decide
-
 macro "bits_simp" : tactic =>
-  `(tactic| simp only [Nat.testBit_or, tb_clearBits _ _ _ (by decide : (7:Nat) < 32), tb_clearBits _ _ _ (by decide : (13:Nat) < 32), tb_clearBits _ _ _ (by decide : (23:Nat) < 32), tb_clearBits _ _ _ (by decide : (24:Nat) < 32), tb_clearBits _ _ _ (by decide : (17:Nat) < 32), tb_clearBits _ _ _ (by decide : (0:Nat) < 32), tb_clearBits _ _ _ (by decide : (11:Nat) < 32), cb_ID_TRANSFORM_11, cb_NO_ALPHA_MAP_11, cb_NO_CONVOLUTION_FILTER_11, cb_NO_PAD_REPEAT_11, cb_NO_REFLECT_REPEAT_11, cb_NO_ACCESSORS_11, cb_NARROW_FORMAT_11, cb_COMPONENT_ALPHA_11, cb_SAMPLES_OPAQUE_11, cb_UNIFIED_ALPHA_11, cb_SCALE_TRANSFORM_11, cb_NEAREST_FILTER_11, cb_HAS_TRANSFORM_11, cb_IS_OPAQUE_11, cb_NO_NORMAL_REPEAT_11, cb_NO_NONE_REPEAT_11, cb_X_UNIT_POSITIVE_11, cb_AFFINE_TRANSFORM_11, cb_Y_UNIT_ZERO_11, cb_BILINEAR_FILTER_11, cb_ROTATE_90_TRANSFORM_11, cb_ROTATE_180_TRANSFORM_11, cb_ROTATE_270_TRANSFORM_11, cb_SAMPLES_COVER_CLIP_NEAREST_11, cb_SAMPLES_COVER_CLIP_BILINEAR_11, cb_BITS_IMAGE_11, cb_SEPARABLE_CONVOLUTION_FILTER_11, cb_ID_TRANSFORM_0, cb_NO_ALPHA_MAP_0, cb_NO_CONVOLUTION_FILTER_0, cb_NO_PAD_REPEAT_0, cb_NO_REFLECT_REPEAT_0, cb_NO_ACCESSORS_0, cb_NARROW_FORMAT_0, cb_COMPONENT_ALPHA_0, cb_SAMPLES_OPAQUE_0, cb_UNIFIED_ALPHA_0, cb_SCALE_TRANSFORM_0, cb_NEAREST_FILTER_0, cb_HAS_TRANSFORM_0, cb_IS_OPAQUE_0, cb_NO_NORMAL_REPEAT_0, cb_NO_NONE_REPEAT_0, cb_X_UNIT_POSITIVE_0, cb_AFFINE_TRANSFORM_0, cb_Y_UNIT_ZERO_0, cb_BILINEAR_FILTER_0, cb_ROTATE_90_TRANSFORM_0, cb_ROTATE_180_TRANSFORM_0, cb_ROTATE_270_TRANSFORM_0, cb_SAMPLES_COVER_CLIP_NEAREST_0, cb_SAMPLES_COVER_CLIP_BILINEAR_0, cb_BITS_IMAGE_0, cb_SEPARABLE_CONVOLUTION_FILTER_0, cb_ID_TRANSFORM_17, cb_NO_ALPHA_MAP_17, cb_NO_CONVOLUTION_FILTER_17, cb_NO_PAD_REPEAT_17, cb_NO_REFLECT_REPEAT_17, cb_NO_ACCESSORS_17, cb_NARROW_FORMAT_17, cb_COMPONENT_ALPHA_17, cb_SAMPLES_OPAQUE_17, cb_UNIFIED_ALPHA_17, cb_SCALE_TRANSFORM_17, cb_NEAREST_FILTER_17, cb_HAS_TRANSFORM_17, cb_IS_OPAQUE_17, cb_NO_NORMAL_REPEAT_17, cb_NO_NONE_REPEAT_17, cb_X_UNIT_POSITIVE_17, cb_AFFINE_TRANSFORM_17, cb_Y_UNIT_ZERO_17, cb_BILINEAR_FILTER_17, cb_ROTATE_90_TRANSFORM_17, cb_ROTATE_180_TRANSFORM_17, cb_ROTATE_270_TRANSFORM_17, cb_SAMPLES_COVER_CLIP_NEAREST_17, cb_SAMPLES_COVER_CLIP_BILINEAR_17, cb_BITS_IMAGE_17, cb_SEPARABLE_CONVOLUTION_FILTER_17, closed, kill, typeEff,
+  `(tactic| simp only [Nat.testBit_or, tb_clearBits _ _ _ (by decide : (7:Nat) < 32), tb_clearBits _ _ _ (by decide : (13:Nat) < 32), tb_clearBits _ _ _ (by decide : (23:Nat) < 32), tb_clearBits _ _ _ (by decide : (24:Nat) < 32), tb_clearBits _ _ _ (by decide : (17:Nat) < 32), tb_clearBits _ _ _ (by decide : (0:Nat) < 32), cb_ID_TRANSFORM_0, cb_NO_ALPHA_MAP_0, cb_NO_CONVOLUTION_FILTER_0, cb_NO_PAD_REPEAT_0, cb_NO_REFLECT_REPEAT_0, cb_NO_ACCESSORS_0, cb_NARROW_FORMAT_0, cb_COMPONENT_ALPHA_0, cb_SAMPLES_OPAQUE_0, cb_UNIFIED_ALPHA_0, cb_SCALE_TRANSFORM_0, cb_NEAREST_FILTER_0, cb_HAS_TRANSFORM_0, cb_IS_OPAQUE_0, cb_NO_NORMAL_REPEAT_0, cb_NO_NONE_REPEAT_0, cb_X_UNIT_POSITIVE_0, cb_AFFINE_TRANSFORM_0, cb_Y_UNIT_ZERO_0, cb_BILINEAR_FILTER_0, cb_ROTATE_90_TRANSFORM_0, cb_ROTATE_180_TRANSFORM_0, cb_ROTATE_270_TRANSFORM_0, cb_SAMPLES_COVER_CLIP_NEAREST_0, cb_SAMPLES_COVER_CLIP_BILINEAR_0, cb_BITS_IMAGE_0, cb_SEPARABLE_CONVOLUTION_FILTER_0, cb_ID_TRANSFORM_17, cb_NO_ALPHA_MAP_17, cb_NO_CONVOLUTION_FILTER_17, cb_NO_PAD_REPEAT_17, cb_NO_REFLECT_REPEAT_17, cb_NO_ACCESSORS_17, cb_NARROW_FORMAT_17, cb_COMPONENT_ALPHA_17, cb_SAMPLES_OPAQUE_17, cb_UNIFIED_ALPHA_17, cb_SCALE_TRANSFORM_17, cb_NEAREST_FILTER_17, cb_HAS_TRANSFORM_17, cb_IS_OPAQUE_17, cb_NO_NORMAL_REPEAT_17, cb_NO_NONE_REPEAT_17, cb_X_UNIT_POSITIVE_17, cb_AFFINE_TRANSFORM_17, cb_Y_UNIT_ZERO_17, cb_BILINEAR_FILTER_17, cb_ROTATE_90_TRANSFORM_17, cb_ROTATE_180_TRANSFORM_17, cb_ROTATE_270_TRANSFORM_17, cb_SAMPLES_COVER_CLIP_NEAREST_17, cb_SAMPLES_COVER_CLIP_BILINEAR_17, cb_BITS_IMAGE_17, cb_SEPARABLE_CONVOLUTION_FILTER_17, closed, kill, typeEff,
       cb_ID_TRANSFORM_7, cb_ID_TRANSFORM_13, cb_ID_TRANSFORM_23, cb_ID_TRANSFORM_24, cb_NO_ALPHA_MAP_7, cb_NO_ALPHA_MAP_13, cb_NO_ALPHA_MAP_23, cb_NO_ALPHA_MAP_24, cb_NO_CONVOLUTION_FILTER_7, cb_NO_CONVOLUTION_FILTER_13, cb_NO_CONVOLUTION_FILTER_23, cb_NO_CONVOLUTION_FILTER_24, cb_NO_PAD_REPEAT_7, cb_NO_PAD_REPEAT_13, cb_NO_PAD_REPEAT_23, cb_NO_PAD_REPEAT_24, cb_NO_REFLECT_REPEAT_7, cb_NO_REFLECT_REPEAT_13, cb_NO_REFLECT_REPEAT_23, cb_NO_REFLECT_REPEAT_24, cb_NO_ACCESSORS_7, cb_NO_ACCESSORS_13, cb_NO_ACCESSORS_23, cb_NO_ACCESSORS_24, cb_NARROW_FORMAT_7, cb_NARROW_FORMAT_13, cb_NARROW_FORMAT_23, cb_NARROW_FORMAT_24, cb_COMPONENT_ALPHA_7, cb_COMPONENT_ALPHA_13, cb_COMPONENT_ALPHA_23, cb_COMPONENT_ALPHA_24, cb_SAMPLES_OPAQUE_7, cb_SAMPLES_OPAQUE_13, cb_SAMPLES_OPAQUE_23, cb_SAMPLES_OPAQUE_24, cb_UNIFIED_ALPHA_7, cb_UNIFIED_ALPHA_13, cb_UNIFIED_ALPHA_23, cb_UNIFIED_ALPHA_24, cb_SCALE_TRANSFORM_7, cb_SCALE_TRANSFORM_13, cb_SCALE_TRANSFORM_23, cb_SCALE_TRANSFORM_24, cb_NEAREST_FILTER_7, cb_NEAREST_FILTER_13, cb_NEAREST_FILTER_23, cb_NEAREST_FILTER_24, cb_HAS_TRANSFORM_7, cb_HAS_TRANSFORM_13, cb_HAS_TRANSFORM_23, cb_HAS_TRANSFORM_24, cb_IS_OPAQUE_7, cb_IS_OPAQUE_13, cb_IS_OPAQUE_23, cb_IS_OPAQUE_24, cb_NO_NORMAL_REPEAT_7, cb_NO_NORMAL_REPEAT_13, cb_NO_NORMAL_REPEAT_23, cb_NO_NORMAL_REPEAT_24, cb_NO_NONE_REPEAT_7, cb_NO_NONE_REPEAT_13, cb_NO_NONE_REPEAT_23, cb_NO_NONE_REPEAT_24, cb_X_UNIT_POSITIVE_7, cb_X_UNIT_POSITIVE_13, cb_X_UNIT_POSITIVE_23, cb_X_UNIT_POSITIVE_24, cb_AFFINE_TRANSFORM_7, cb_AFFINE_TRANSFORM_13, cb_AFFINE_TRANSFORM_23, cb_AFFINE_TRANSFORM_24, cb_Y_UNIT_ZERO_7, cb_Y_UNIT_ZERO_13, cb_Y_UNIT_ZERO_23, cb_Y_UNIT_ZERO_24, cb_BILINEAR_FILTER_7, cb_BILINEAR_FILTER_13, cb_BILINEAR_FILTER_23, cb_BILINEAR_FILTER_24, cb_ROTATE_90_TRANSFORM_7, cb_ROTATE_90_TRANSFORM_13, cb_ROTATE_90_TRANSFORM_23, cb_ROTATE_90_TRANSFORM_24, cb_ROTATE_180_TRANSFORM_7, cb_ROTATE_180_TRANSFORM_13, cb_ROTATE_180_TRANSFORM_23, cb_ROTATE_180_TRANSFORM_24, cb_ROTATE_270_TRANSFORM_7, cb_ROTATE_270_TRANSFORM_13, cb_ROTATE_270_TRANSFORM_23, cb_ROTATE_270_TRANSFORM_24, cb_SAMPLES_COVER_CLIP_NEAREST_7, cb_SAMPLES_COVER_CLIP_NEAREST_13, cb_SAMPLES_COVER_CLIP_NEAREST_23, cb_SAMPLES_COVER_CLIP_NEAREST_24, cb_SAMPLES_COVER_CLIP_BILINEAR_7, cb_SAMPLES_COVER_CLIP_BILINEAR_13, cb_SAMPLES_COVER_CLIP_BILINEAR_23, cb_SAMPLES_COVER_CLIP_BILINEAR_24, cb_BITS_IMAGE_7, cb_BITS_IMAGE_13, cb_BITS_IMAGE_23, cb_BITS_IMAGE_24, cb_SEPARABLE_CONVOLUTION_FILTER_7, cb_SEPARABLE_CONVOLUTION_FILTER_13, cb_SEPARABLE_CONVOLUTION_FILTER_23, cb_SEPARABLE_CONVOLUTION_FILTER_24,
       Bool.or_false, Bool.or_true, Bool.and_true, Bool.and_false, Bool.not_true, Bool.not_false, Bool.false_or, Bool.true_or, Bool.true_and, Bool.false_and, beq_self_eq_true, Nat.reduceBEq, Nat.reduceBNe])
 
@@ -368,28 +340,28 @@ theorem finalK_tb (p : Props) (am : Option Nat) (code f i : Nat) (hi : Tracked i
   unfold finalK
   split <;> rename_i h
   · have hk : killed p am = true := h
-    rcases hi with rfl | rfl | rfl | rfl | rfl | rfl | rfl <;> bits_simp <;> simp [hk]
+    rcases hi with rfl | rfl | rfl | rfl | rfl | rfl <;> bits_simp <;> simp [hk]
   · have hk : killed p am = false := by
       cases hq : killed p am with
       | false => rfl
       | true => exact absurd hq h
-    rcases hi with rfl | rfl | rfl | rfl | rfl | rfl | rfl <;> bits_simp <;> simp [hk]
+    rcases hi with rfl | rfl | rfl | rfl | rfl | rfl <;> bits_simp <;> simp [hk]
 
 
 theorem amK_tb (cr : Creation) (p : Props) (am : Option Nat) (f code i : Nat) (hi : Tracked i) :
     (amK cr p am f code).1.testBit i = (f.testBit i && !kill p am i) := by
   unfold amK
-  rcases hi with rfl | rfl | rfl | rfl | rfl | rfl | rfl <;> (repeat' split) <;> rw [finalK_tb _ _ _ _ _ (by unfold Tracked; decide)] <;> bits_simp
+  rcases hi with rfl | rfl | rfl | rfl | rfl | rfl <;> (repeat' split) <;> rw [finalK_tb _ _ _ _ _ (by unfold Tracked; decide)] <;> bits_simp
 
 theorem bitsK3_tb (cr : Creation) (p : Props) (am : Option Nat) (f code i : Nat) (hi : Tracked i) :
     (bitsK3 cr p am code f).1.testBit i = (f.testBit i && !kill p am i) := by
   unfold bitsK3
-  rcases hi with rfl | rfl | rfl | rfl | rfl | rfl | rfl <;> (repeat' split) <;> rw [amK_tb _ _ _ _ _ _ (by unfold Tracked; decide)] <;> bits_simp
+  rcases hi with rfl | rfl | rfl | rfl | rfl | rfl <;> (repeat' split) <;> rw [amK_tb _ _ _ _ _ _ (by unfold Tracked; decide)] <;> bits_simp
 
 theorem bitsK2_tb (cr : Creation) (p : Props) (am : Option Nat) (f code i : Nat) (hi : Tracked i) :
     (bitsK2 cr p am code f).1.testBit i = (f.testBit i && !kill p am i) := by
   unfold bitsK2
-  rcases hi with rfl | rfl | rfl | rfl | rfl | rfl | rfl <;> (repeat' split) <;> rw [bitsK3_tb _ _ _ _ _ _ (by unfold Tracked; decide)] <;> bits_simp
+  rcases hi with rfl | rfl | rfl | rfl | rfl | rfl <;> (repeat' split) <;> rw [bitsK3_tb _ _ _ _ _ _ (by unfold Tracked; decide)] <;> bits_simp
 
 theorem bitsK1_tb (cr : Creation) (p : Props) (am : Option Nat) (f code i : Nat) (hi : Tracked i) :
     (bitsK1 cr p am f code).1.testBit i =
@@ -398,37 +370,20 @@ theorem bitsK1_tb (cr : Creation) (p : Props) (am : Option Nat) (f code i : Nat)
   split <;> rename_i h
   · have ha : alphaLess cr.format = true := h
     split <;> rename_i hr <;>
-    rcases hi with rfl | rfl | rfl | rfl | rfl | rfl | rfl <;> rw [bitsK2_tb _ _ _ _ _ _ (by unfold Tracked; decide)] <;> bits_simp <;> simp_all
+    rcases hi with rfl | rfl | rfl | rfl | rfl | rfl <;> rw [bitsK2_tb _ _ _ _ _ _ (by unfold Tracked; decide)] <;> bits_simp <;> simp_all
   · have ha : alphaLess cr.format = false := by
       cases hq : alphaLess cr.format with
       | false => rfl
       | true => exact absurd hq h
-    rcases hi with rfl | rfl | rfl | rfl | rfl | rfl | rfl <;> rw [bitsK2_tb _ _ _ _ _ _ (by unfold Tracked; decide)] <;> bits_simp <;> simp_all
+    rcases hi with rfl | rfl | rfl | rfl | rfl | rfl <;> rw [bitsK2_tb _ _ _ _ _ _ (by unfold Tracked; decide)] <;> bits_simp <;> simp_all
 
-
-theorem hasBits_affine (f : Nat) : hasBits f FAST_PATH_AFFINE_TRANSFORM = f.testBit 17 := by
-  unfold hasBits
-  have h1 : FAST_PATH_AFFINE_TRANSFORM = 2 ^ 17 := by decide
-  rw [h1, Nat.testBit_eq_decide_div_mod_eq]
-  have hd : (f &&& 2 ^ 17) / 2 ^ 17 = (f / 2 ^ 17) &&& 1 := by rw [Nat.and_div_two_pow]
-  have hm : (f &&& 2 ^ 17) % 2 ^ 17 = (f % 2 ^ 17) &&& 0 := by rw [Nat.and_mod_two_pow]
-  have e1 : (f / 2 ^ 17) &&& 1 = f / 2 ^ 17 % 2 := Nat.and_two_pow_sub_one_eq_mod _ 1
-  have e2 : (f % 2 ^ 17) &&& 0 = 0 := Nat.and_zero _
-  have := Nat.div_add_mod (f &&& 2 ^ 17) (2 ^ 17)
-  rw [hd, hm, e1, e2] at this
-  by_cases hb : f / 2 ^ 17 % 2 = 1
-  · have : f &&& 2 ^ 17 ≠ 0 := by omega
-    simp [hb, this]
-  · have : f &&& 2 ^ 17 = 0 := by omega
-    simp [hb, this]
 
 theorem typeK_tb (cr : Creation) (p : Props) (am : Option Nat) (f i : Nat) (hi : Tracked i)
     (hf : f.testBit 13 = false) :
-    (typeK cr p am f).1.testBit i = closed cr p am (f.testBit 17) i (f.testBit i) := by
+    (typeK cr p am f).1.testBit i = closed cr p am i (f.testBit i) := by
   unfold typeK closed typeEff gradOpaque
-  simp only [hasBits_affine]
   cases hk : cr.kind <;> simp only [] <;>
-  rcases hi with rfl | rfl | rfl | rfl | rfl | rfl | rfl <;> (repeat' split) <;>
+  rcases hi with rfl | rfl | rfl | rfl | rfl | rfl <;> (repeat' split) <;>
   (first
     | rw [amK_tb _ _ _ _ _ _ (by unfold Tracked; decide)]
     | rw [bitsK1_tb _ _ _ _ _ _ (by unfold Tracked; decide)]) <;>
@@ -436,34 +391,34 @@ theorem typeK_tb (cr : Creation) (p : Props) (am : Option Nat) (f i : Nat) (hi :
   (try (intro hall; rename_i hex; obtain ⟨x, hx, hne⟩ := hex; exact absurd (hall x hx) hne))
 
 theorem caK_tb (cr : Creation) (p : Props) (am : Option Nat) (f i : Nat) (hi : Tracked i) (hf : f.testBit 13 = false) :
-    (caK cr p am f).1.testBit i = closed cr p am (f.testBit 17) i (f.testBit i) := by
+    (caK cr p am f).1.testBit i = closed cr p am i (f.testBit i) := by
   unfold caK
   split <;> rw [typeK_tb _ _ _ _ _ hi (by bits_simp; exact hf)] <;>
-  rcases hi with rfl | rfl | rfl | rfl | rfl | rfl | rfl <;> bits_simp
+  rcases hi with rfl | rfl | rfl | rfl | rfl | rfl <;> bits_simp
 
 theorem repeatK_tb (cr : Creation) (p : Props) (am : Option Nat) (f i : Nat) (hi : Tracked i) (hf : f.testBit 13 = false) :
-    (repeatK cr p am f).1.testBit i = closed cr p am (f.testBit 17) i (f.testBit i) := by
+    (repeatK cr p am f).1.testBit i = closed cr p am i (f.testBit i) := by
   unfold repeatK
   (repeat' split) <;> rw [caK_tb _ _ _ _ _ hi (by bits_simp; exact hf)] <;>
-  rcases hi with rfl | rfl | rfl | rfl | rfl | rfl | rfl <;> bits_simp
+  rcases hi with rfl | rfl | rfl | rfl | rfl | rfl <;> bits_simp
 
-theorem filterK_tb (cr : Creation) (p : Props) (am : Option Nat) (f i : Nat) (hi : Tracked i) (h11 : i ≠ 11) (hf : f.testBit 13 = false) :
-    (filterK cr p am f).1.testBit i = closed cr p am (f.testBit 17) i (f.testBit i) := by
+theorem filterK_tb (cr : Creation) (p : Props) (am : Option Nat) (f i : Nat) (hi : Tracked i) (hf : f.testBit 13 = false) :
+    (filterK cr p am f).1.testBit i = closed cr p am i (f.testBit i) := by
   unfold filterK
   (repeat' split) <;> rw [repeatK_tb _ _ _ _ _ hi (by first | exact hf | (bits_simp; exact hf))] <;>
-  rcases hi with rfl | rfl | rfl | rfl | rfl | rfl | rfl <;> first | exact absurd rfl h11 | bits_simp
+  rcases hi with rfl | rfl | rfl | rfl | rfl | rfl <;> bits_simp
 
-theorem tK3_tb (cr : Creation) (p : Props) (am : Option Nat) (t : Transform) (f i : Nat) (hi : Tracked i) (h11 : i ≠ 11) (hf : f.testBit 13 = false) :
-    (tK3 cr p am t f).1.testBit i = closed cr p am (f.testBit 17) i (f.testBit i) := by
+theorem tK3_tb (cr : Creation) (p : Props) (am : Option Nat) (t : Transform) (f i : Nat) (hi : Tracked i) (hf : f.testBit 13 = false) :
+    (tK3 cr p am t f).1.testBit i = closed cr p am i (f.testBit i) := by
   unfold tK3
-  split <;> rw [filterK_tb _ _ _ _ _ hi h11 (by first | exact hf | (bits_simp; exact hf))] <;>
-  rcases hi with rfl | rfl | rfl | rfl | rfl | rfl | rfl <;> first | exact absurd rfl h11 | bits_simp
+  split <;> rw [filterK_tb _ _ _ _ _ hi (by first | exact hf | (bits_simp; exact hf))] <;>
+  rcases hi with rfl | rfl | rfl | rfl | rfl | rfl <;> bits_simp
 
-theorem tK2_tb (cr : Creation) (p : Props) (am : Option Nat) (t : Transform) (f i : Nat) (hi : Tracked i) (h11 : i ≠ 11) (hf : f.testBit 13 = false) :
-    (tK2 cr p am t f).1.testBit i = closed cr p am (f.testBit 17) i (f.testBit i) := by
+theorem tK2_tb (cr : Creation) (p : Props) (am : Option Nat) (t : Transform) (f i : Nat) (hi : Tracked i) (hf : f.testBit 13 = false) :
+    (tK2 cr p am t f).1.testBit i = closed cr p am i (f.testBit i) := by
   unfold tK2
-  split <;> rw [tK3_tb _ _ _ _ _ _ hi h11 (by first | exact hf | (bits_simp; exact hf))] <;>
-  rcases hi with rfl | rfl | rfl | rfl | rfl | rfl | rfl <;> first | exact absurd rfl h11 | bits_simp
+  split <;> rw [tK3_tb _ _ _ _ _ _ hi (by first | exact hf | (bits_simp; exact hf))] <;>
+  rcases hi with rfl | rfl | rfl | rfl | rfl | rfl <;> bits_simp
 
 /-- `FAST_PATH_AFFINE_TRANSFORM` as the transform section sets it -/
 def affineFlag (p : Props) : Bool :=
@@ -472,92 +427,14 @@ def affineFlag (p : Props) : Bool :=
   | some t => t.m20 == 0 && t.m21 == 0 && t.m22 == pixman_fixed_1
 
 /-- closed form of the tracked bits of `compute_image_info` -/
-theorem flags_tb (cr : Creation) (p : Props) (am : Option Nat) (i : Nat) (hi : Tracked i) (h11 : i ≠ 11) :
-    (computeImageInfo cr p am).1.testBit i = closed cr p am (affineFlag p) i ((i == 17 && affineFlag p) || (i == 0 && p.transform.isNone)) := by
+theorem flags_tb (cr : Creation) (p : Props) (am : Option Nat) (i : Nat) (hi : Tracked i) :
+    (computeImageInfo cr p am).1.testBit i = closed cr p am i ((i == 17 && affineFlag p) || (i == 0 && p.transform.isNone)) := by
   rw [computeImageInfo_eq]
   unfold transformK affineFlag
-  cases ht : p.transform with
-  | none =>
-    simp only []
-    rw [filterK_tb _ _ _ _ _ hi h11 (by bits_simp; exact Nat.zero_testBit 13)]
-    rcases hi with rfl | rfl | rfl | rfl | rfl | rfl | rfl <;> first | exact absurd rfl h11 | (bits_simp <;> simp_all [Nat.zero_testBit])
-  | some t =>
-    simp only []
-    cases hc : (t.m20 == 0 && t.m21 == 0 && t.m22 == pixman_fixed_1) <;>
-    simp only [Bool.false_eq_true, ↓reduceIte] <;> (repeat' split) <;>
-    rw [tK2_tb _ _ _ _ _ _ hi h11 (by bits_simp; exact Nat.zero_testBit 13)] <;>
-    rcases hi with rfl | rfl | rfl | rfl | rfl | rfl | rfl <;> first | exact absurd rfl h11 | (bits_simp <;> simp_all [Nat.zero_testBit])
-
-/-! ## bit 11, FAST_PATH_NEAREST_FILTER -/
-
-def nearestFam (f : Int) : Bool := f == PIXMAN_FILTER_NEAREST || f == PIXMAN_FILTER_FAST
-def bilinearFam (f : Int) : Bool := f == PIXMAN_FILTER_BILINEAR || f == PIXMAN_FILTER_GOOD || f == PIXMAN_FILTER_BEST
-
-/-- the filter section sets NEAREST_FILTER for a NEAREST/FAST filter, or for a BILINEAR/GOOD/BEST filter under the
-identity or a transform passing the integer-translation test (`reducible`) -/
-theorem filterK_11 (cr : Creation) (p : Props) (am : Option Nat) (f : Nat) (hf13 : f.testBit 13 = false) (hf11 : f.testBit 11 = false)
-    (h : (filterK cr p am f).1.testBit 11 = true) :
-    nearestFam p.filter = true ∨
-    (bilinearFam p.filter = true ∧
-      (hasBits (f ||| (FAST_PATH_BILINEAR_FILTER ||| FAST_PATH_NO_CONVOLUTION_FILTER)) FAST_PATH_ID_TRANSFORM = true ∨
-       (hasBits (f ||| (FAST_PATH_BILINEAR_FILTER ||| FAST_PATH_NO_CONVOLUTION_FILTER)) FAST_PATH_AFFINE_TRANSFORM = true ∧
-        ∃ t, p.transform = some t ∧ reducible t = true))) := by
-  have T11 : Tracked 11 := by unfold Tracked; decide
-  unfold filterK at h
-  unfold nearestFam bilinearFam
-  split at h
-  · rename_i hc; exact Or.inl hc
-  · split at h
-    · rename_i hb
-      refine Or.inr ⟨hb, ?_⟩
-      split at h
-      · rename_i hid; exact Or.inl hid
-      · split at h
-        · rename_i haf
-          refine Or.inr ⟨haf, ?_⟩
-          split at h
-          · exfalso
-            rw [repeatK_tb _ _ _ _ _ T11 (by bits_simp; exact hf13)] at h
-            revert h; bits_simp; (try simp [hf11]); (try (cases cr.kind <;> rfl))
-          · rename_i t ht
-            split at h
-            · rename_i hred; exact ⟨t, ht, hred⟩
-            · exfalso
-              rw [repeatK_tb _ _ _ _ _ T11 (by bits_simp; exact hf13)] at h
-              revert h; bits_simp; (try simp [hf11]); (try (cases cr.kind <;> rfl))
-        · exfalso
-          rw [repeatK_tb _ _ _ _ _ T11 (by bits_simp; exact hf13)] at h
-          revert h; bits_simp; (try simp [hf11]); (try (cases cr.kind <;> rfl))
-    · exfalso
-      repeat' split at h
-      all_goals (rw [repeatK_tb _ _ _ _ _ T11 (by first | exact hf13 | (bits_simp; exact hf13))] at h; revert h; bits_simp; (try simp [hf11]); (try (cases cr.kind <;> rfl)))
-
-
-/-- closed form (one direction) of NEAREST_FILTER in `common.flags`: a NEAREST/FAST filter, or a BILINEAR-family filter with
-no transform or an affine transform passing `compute_image_info`'s integer-translation test -/
-theorem flags_11 (cr : Creation) (p : Props) (am : Option Nat) (h : (computeImageInfo cr p am).1.testBit 11 = true) :
-    nearestFam p.filter = true ∨
-    (bilinearFam p.filter = true ∧
-      (p.transform = none ∨ ∃ t, p.transform = some t ∧ (t.m20 == 0 && t.m21 == 0 && t.m22 == pixman_fixed_1) = true ∧ reducible t = true)) := by
-  rw [computeImageInfo_eq] at h
-  unfold transformK at h
-  split at h
-  · rename_i hnone
-    have := filterK_11 _ _ _ _ (by bits_simp; exact Nat.zero_testBit 13) (by bits_simp; exact Nat.zero_testBit 11) h
-    rcases this with hn | ⟨hb, _⟩
-    · exact Or.inl hn
-    · exact Or.inr ⟨hb, Or.inl hnone⟩
-  · rename_i t hsome
-    unfold tK2 tK3 at h
-    repeat' split at h
-    all_goals (
-      have := filterK_11 _ _ _ _ (by bits_simp; exact Nat.zero_testBit 13) (by bits_simp; exact Nat.zero_testBit 11) h
-      rcases this with hn | ⟨hb, hid | ⟨haf, t', ht', hr⟩⟩
-      · exact Or.inl hn
-      · exact absurd hid (by decide)
-      · first
-        | exact absurd haf (by decide)
-        | (rw [hsome] at ht'; injection ht' with ht'; subst ht'
-           exact Or.inr ⟨hb, Or.inr ⟨_, hsome, by assumption, hr⟩⟩))
+  (repeat' split) <;>
+  (first
+    | rw [filterK_tb _ _ _ _ _ hi (by bits_simp; exact Nat.zero_testBit 13)]
+    | rw [tK2_tb _ _ _ _ _ _ hi (by bits_simp; exact Nat.zero_testBit 13)]) <;>
+  rcases hi with rfl | rfl | rfl | rfl | rfl | rfl <;> bits_simp <;> simp_all [Nat.zero_testBit]
 
 end Pixman.Lemmas.OpacityFlags
